@@ -858,6 +858,41 @@ func (k *kase) checkRep(name string, src interface{}, pathSep bool) {
 	k.res.Ev("refeed_checked", 1)
 }
 
+// ptrIfaceValues renders the tree with map values and list elements wrapped
+// in *interface{} (some of them holding another pointer).
+func ptrIfaceValues(r *rand.Rand, n *model.Node) interface{} {
+	wrap := func(v interface{}) interface{} {
+		if v == nil || r.Intn(3) == 0 {
+			return v // nil stays nil; some values stay plain
+		}
+		p := new(interface{})
+		*p = v
+		if r.Intn(4) == 0 {
+			var q interface{} = p
+			return &q // *interface{} holding a *interface{}
+		}
+		return p
+	}
+	if n == nil || n.Kind == model.KNil {
+		return nil
+	}
+	if n.Kind == model.KPrim {
+		return n.Prim
+	}
+	if (n.HasA || len(n.A) > 0) && len(n.D) == 0 {
+		l := make([]interface{}, 0, len(n.A))
+		for _, e := range n.A {
+			l = append(l, wrap(ptrIfaceValues(r, e)))
+		}
+		return l
+	}
+	m := make(map[string]interface{}, len(n.D))
+	for key, e := range n.D {
+		m[key] = wrap(ptrIfaceValues(r, e))
+	}
+	return m
+}
+
 func (k *kase) representations() {
 	r, t := k.r, k.t
 	m := t.ToGo().(map[string]interface{})
@@ -876,6 +911,14 @@ func (k *kase) representations() {
 	if r.Intn(2) == 0 {
 		pm := &m
 		k.checkRep("ptr-ptr-map", &pm, r.Intn(2) == 0)
+	}
+	// pointers to interface values: the whole tree behind a *interface{}, and
+	// every map value / list element behind one (also a *interface{} holding a
+	// pointer) - pointers are followed to the end, whatever they point to
+	{
+		var top interface{} = m
+		k.checkRep("ptr-iface", &top, r.Intn(2) == 0)
+		k.checkRep("ptr-iface-values", ptrIfaceValues(r, t), r.Intn(2) == 0)
 	}
 	for _, st := range []int{stStruct, stTyped, stMixed, stConfigValues} {
 		ps := r.Intn(2) == 0
